@@ -149,6 +149,7 @@ impl Transport for ModelTransport {
         let mut s = self.st.borrow_mut();
         s.log.push((crate::hal::tick(), TCall::SetStatus(status.bits())));
         s.status = status.bits();
+        crate::wake::status(Rc::as_ptr(&self.st) as usize, status.bits());
         if status.bits() == 0 {
             for q in s.queues.iter_mut() {
                 *q = QueueReg::default();
